@@ -186,8 +186,9 @@ func (reader *CollectionReader) StartRead(ctx context.Context) {
 			partitionLog.Info("has started to add partition")
 			return false
 		})
-		reader.metaOp.WatchCollection(ctx, nil)
-		reader.metaOp.WatchPartition(ctx, nil)
+		// the watchers are started once per target and serve every task of it: not bound to this task's lifetime
+		reader.metaOp.WatchCollection(context.WithoutCancel(ctx), nil)
+		reader.metaOp.WatchPartition(context.WithoutCancel(ctx), nil)
 
 		readerLog := log.With(zap.String("task_id", reader.id))
 
